@@ -1,4 +1,374 @@
-#define XV_HAVOC_LOAD seq idx seq2 result self _seq
-#define XV_HAVOC_WAIT seq self _seq
-#define XV_HAVOC_ACQ seq self _seq
-#define XV_HAVOC_ACQW seq self _seq
+/* unit seqlock - xenium::seqlock (C14).  Declarations, monitors, environment, invariants and harnesses only;
+ * every function body under contract comes from lowered.h (extracted from xenium/seqlock.hpp on this run). */
+#include <stdint.h>
+#include <stddef.h>
+#include <string.h>
+#ifndef XV_W
+#define XV_W 16      /* sizeof(T) */
+#endif
+#ifndef XV_A
+#define XV_A 8       /* alignof(T) */
+#endif
+#ifndef XV_S
+#define XV_S 2       /* policy::slots */
+#endif
+/* the element type: XV_W opaque bytes with alignment XV_A, so that sizeof(T) / alignof(T) in the extracted text are the shape */
+typedef struct { unsigned char b[XV_W]; } __attribute__((aligned(XV_A))) T;
+_Static_assert(sizeof(T) == XV_W, "shape error: W must be a multiple of A");
+_Static_assert(XV_W > sizeof(uintptr_t), "seqlock's own static_assert: sizeof(T) > sizeof(uintptr_t)");
+
+static void mon_load(const void* addr, uint64_t v, int o);
+static void mon_store(const void* addr, uint64_t v, int o);
+static void mon_cas(const void* addr, uint64_t e, uint64_t d, _Bool ok, int o);
+static void mon_fence(int o);
+#define XV_ON_LOAD(addr, val, order) mon_load((const void*)(addr), (uint64_t)(val), (order))
+#define XV_ON_STORE(addr, val, order) mon_store((const void*)(addr), (uint64_t)(val), (order))
+#define XV_ON_CAS(addr, e, d, ok, order) mon_cas((const void*)(addr), (uint64_t)(e), (uint64_t)(d), (ok), (order))
+#define XV_ON_FENCE(order) mon_fence(order)
+#include "xv.h"
+int xv_threw; uint64_t xv_clock, xv_rmw_old; _Bool xv_cas_ok;
+/* cbmc 6.11 work-around, no change of meaning: the loaded value is routed through an identity function.  With xv.h's direct
+ * `(a)` read, two consecutive type-punned word stores `*pdest = *psrc` whose sources are word reads at a symbolic slot offset
+ * are encoded wrongly (the first store is lost; reproduced in isolation, also with the z3 back end). */
+static uintptr_t xv_pass(uintptr_t x) { return x; }
+#undef XV_A_LOAD
+#define XV_A_LOAD(a, o) (XV_ENV(), xv_clock++, XV_ON_LOAD(&(a), (a), (o)), xv_pass((a)))
+#define MAXSEQ ((uint64_t)1 << 62)     /* assumption: _seq does not wrap */
+
+struct seqlock; struct seqlock* g_sl;  /* the object under test (monitors and the environment address it through this) */
+
+/* ---- harness inputs (reported to the native replay) ---- */
+unsigned in_W, in_A, in_S, in_g, in_slot; uint64_t in_seq0;
+
+/* ---- ghost state ---- */
+uint64_t ver[XV_S];                    /* version of a slot's contents: bumped by the environment whenever it modifies the slot */
+uint64_t shadow_seq;                   /* value of _seq after the last write to it */
+/* last observation of _seq by the thread under test, with a snapshot of the slot that sequence value designates */
+uint64_t obs_v, obs_ver; unsigned obs_slot; unsigned char obs_snap;
+/* copy of the observation current when read_data was entered the last time; slot handed to read_data/store_data */
+uint64_t rd_obs_v, rd_obs_ver; unsigned rd_obs_slot; unsigned char rd_obs_snap; unsigned rd_calls, st_calls;
+unsigned cur_slot, rd_slot, st_slot; uint64_t st_seq;
+/* per-access bookkeeping */
+unsigned n_seq_loads, n_data_loads, n_data_stores, n_seq_stores, n_cas, n_cas_ok, g_rd_count, g_wr_count; uint64_t g_rd_ver;
+_Bool acc_oob, acc_misaligned, seq_load_weak, fence_missing, pending_data_loads, lock_mine, guar_bad, rel_weak, cas_weak, rel_fence_since, wfence_missing;
+/* update functor stub */
+unsigned fn_calls; unsigned char fn_in_g, fn_out_g; uint64_t fn_seq; _Bool fn_locked; int fn_id;
+
+static _Bool mon_clean(void) {
+  return !seq_load_weak && !fence_missing && !pending_data_loads && !lock_mine && !guar_bad
+      && n_data_stores == 0 && n_seq_stores == 0 && n_cas == 0;
+}
+static void havoc_shared(void);
+
+/* ---- loop invariants (INT runs) ----
+ * reader: the local seq is the last observed value of _seq; _seq has not decreased since; and as long as _seq has not passed
+ * 2*(obs_v>>1) + 2*slots - 2 the slot designated by the observation still holds the byte (and version) it held when observed. */
+#define SL_STABLE_LIMIT(v) ((((v) >> 1) << 1) + 2 * (uint64_t)XV_S - 2)
+#define SL_INV_READER (seq == obs_v && obs_v >= in_seq0 && g_sl->_seq >= obs_v && g_sl->_seq <= MAXSEQ && shadow_seq == g_sl->_seq \
+   && obs_slot == (unsigned)((obs_v >> 1) % slots) \
+   && (g_sl->_seq <= SL_STABLE_LIMIT(obs_v) ? (g_sl->_data[obs_slot].b[in_g] == obs_snap && ver[obs_slot] == obs_ver) : 1) \
+   && mon_clean())
+#define XV_INV_LOAD SL_INV_READER
+#define XV_INV_WAIT SL_INV_READER
+#define XV_HAVOC_LOAD seq = nondet_uptr(); result = nondet_T(); havoc_shared() /* self: _seq, _data and all ghost state; idx, seq2 are body-local */
+#define XV_HAVOC_WAIT seq = nondet_uptr(); result = nondet_T(); havoc_shared() /* self: _seq, _data */
+/* acquire_lock: nothing written by this thread so far */
+#define SL_INV_ACQ (g_sl->_seq <= MAXSEQ && shadow_seq == g_sl->_seq && !lock_mine && !guar_bad && !cas_weak \
+   && n_cas_ok == 0 && n_seq_stores == 0 && n_data_stores == 0)
+#define XV_INV_ACQ SL_INV_ACQ
+#define XV_INV_ACQW SL_INV_ACQ
+#define XV_HAVOC_ACQ seq = nondet_uptr(); havoc_shared() /* self->_seq */
+#define XV_HAVOC_ACQW seq = nondet_uptr(); havoc_shared() /* self->_seq */
+
+#ifdef XV_INT
+/* Environment = the writers.  RELY: (R1) _seq only increases; (R2) a slot's bytes change only while _seq is an odd value 2j+1 and
+ * the slot is (j+1) mod slots; (R3) nothing changes while _seq holds the odd value this thread installed (lock_mine).
+ * One environment step summarises any number of writer actions: _seq moves from a to any b >= a and every slot that is the
+ * write target of some odd value in [a, b] gets arbitrary contents (and a new version). */
+_Bool env_on; unsigned env_writes;
+void xv_env(void);
+#endif
+
+#include "lowered.h"
+
+/* ---- monitors ---- */
+static void mon_data(const void* addr, _Bool is_store) {
+  if (!__CPROVER_same_object(addr, g_sl)) { acc_oob = 1; return; }
+  long off = (long)__CPROVER_POINTER_OFFSET(addr) - (long)(offsetof(struct seqlock, _data) + (size_t)cur_slot * sizeof(storage_t));
+  if (off < 0 || off + (long)sizeof(copy_t) > (long)sizeof(storage_t)) acc_oob = 1;     /* word access leaves the slot's storage_t */
+  if (__CPROVER_POINTER_OFFSET(addr) % _Alignof(copy_t) != 0) acc_misaligned = 1;     /* the seqlock object itself is aligned for atomic<uintptr_t> */
+  if (off <= (long)in_g && (long)in_g < off + (long)sizeof(copy_t)) {
+    if (is_store) g_wr_count++; else { g_rd_count++; g_rd_ver = cur_slot < XV_S ? ver[cur_slot] : 0; }
+  }
+}
+static void mon_load(const void* addr, uint64_t v, int o) {
+  if (addr == (const void*)&g_sl->_seq) {
+    n_seq_loads++;
+    if (!XV_IS_ACQUIRE(o)) seq_load_weak = 1;
+    if (pending_data_loads) fence_missing = 1;          /* data words were loaded and no acquire fence separates them from this load of _seq */
+    obs_v = v; obs_slot = (unsigned)((v >> 1) % slots); obs_snap = g_sl->_data[obs_slot].b[in_g]; obs_ver = ver[obs_slot];
+  } else { n_data_loads++; pending_data_loads = 1; mon_data(addr, 0); }
+}
+static void mon_store(const void* addr, uint64_t v, int o) {
+  if (addr == (const void*)&g_sl->_seq) {
+    n_seq_stores++;
+    if (!(lock_mine && (shadow_seq & 1) && v == shadow_seq + 1)) guar_bad = 1;   /* only the lock holder writes _seq, and only odd -> odd+1 */
+    if (!XV_IS_RELEASE(o)) rel_weak = 1;
+    lock_mine = 0; shadow_seq = v;
+  } else {
+    n_data_stores++;
+    /* guarantee: data is written only by the lock holder, while _seq is the odd value 2j+1 it installed, and only into slot (j+1) mod slots */
+    if (!(lock_mine && (g_sl->_seq & 1) && g_sl->_seq == shadow_seq && cur_slot == (unsigned)(((g_sl->_seq >> 1) + 1) % slots))) guar_bad = 1;
+    if (!rel_fence_since) wfence_missing = 1;            /* no release fence between taking the lock and this data store */
+    mon_data(addr, 1);
+  }
+}
+static void mon_cas(const void* addr, uint64_t e, uint64_t d, _Bool ok, int o) {
+  n_cas++;
+  if (addr != (const void*)&g_sl->_seq) guar_bad = 1;
+  if (ok) {
+    n_cas_ok++;
+    if ((e & 1) || d != e + 1 || lock_mine) guar_bad = 1;   /* the lock is taken only from an even value, even -> even+1 */
+    if (!XV_IS_ACQUIRE(o)) cas_weak = 1;
+    lock_mine = 1; rel_fence_since = 0; shadow_seq = d;
+  }
+}
+static void mon_fence(int o) {
+  if (XV_IS_ACQUIRE(o)) pending_data_loads = 0;
+  if (XV_IS_RELEASE(o)) rel_fence_since = 1;
+}
+static void SL_READ_DATA(const struct seqlock* self, T* dest, const storage_t* src) {
+  cur_slot = (unsigned)(src - self->_data); rd_slot = cur_slot; rd_calls++;
+  rd_obs_v = obs_v; rd_obs_ver = obs_ver; rd_obs_slot = obs_slot; rd_obs_snap = obs_snap; g_rd_count = 0;
+  sl_read_data(self, dest, src);
+}
+static void SL_STORE_DATA(struct seqlock* self, const T* src, storage_t* dest) {
+  cur_slot = (unsigned)(dest - self->_data); st_slot = cur_slot; st_calls++; st_seq = self->_seq; g_wr_count = 0;
+  sl_store_data(self, src, dest);
+}
+/* update's functor: records what it was applied to, returns an arbitrary new value */
+static void XV_FUNCTOR(int func, T* value) {
+  fn_calls++; fn_id = func; fn_in_g = value->b[in_g]; fn_seq = g_sl->_seq; fn_locked = lock_mine;
+  *value = nondet_T(); fn_out_g = value->b[in_g];
+}
+
+static void reset_monitors(void) {
+  n_seq_loads = n_data_loads = n_data_stores = n_seq_stores = n_cas = n_cas_ok = g_rd_count = g_wr_count = 0; rd_calls = st_calls = fn_calls = 0;
+  acc_oob = acc_misaligned = seq_load_weak = fence_missing = pending_data_loads = lock_mine = guar_bad = rel_weak = cas_weak = wfence_missing = 0;
+  rel_fence_since = 0;
+}
+static void havoc_shared(void) {
+  *g_sl = nondet_seqlock(); shadow_seq = g_sl->_seq;
+  for (unsigned s = 0; s < XV_S; s++) ver[s] = nondet_u64();
+  obs_v = nondet_u64(); obs_ver = nondet_u64(); obs_slot = nondet_uint(); obs_snap = nondet_uchar();
+  rd_obs_v = nondet_u64(); rd_obs_ver = nondet_u64(); rd_obs_slot = nondet_uint(); rd_obs_snap = nondet_uchar();
+  rd_calls = nondet_uint(); st_calls = nondet_uint(); cur_slot = nondet_uint(); rd_slot = nondet_uint(); st_slot = nondet_uint(); st_seq = nondet_u64();
+  n_seq_loads = nondet_uint(); n_data_loads = nondet_uint(); n_data_stores = nondet_uint(); n_seq_stores = nondet_uint(); n_cas = nondet_uint(); n_cas_ok = nondet_uint();
+  g_rd_count = nondet_uint(); g_wr_count = nondet_uint(); g_rd_ver = nondet_u64();
+  seq_load_weak = nondet_bool(); fence_missing = nondet_bool(); pending_data_loads = nondet_bool(); lock_mine = nondet_bool(); guar_bad = nondet_bool();
+  rel_weak = nondet_bool(); cas_weak = nondet_bool(); rel_fence_since = nondet_bool(); wfence_missing = nondet_bool();
+  xv_clock = nondet_u64();
+#ifdef XV_INT
+  env_writes = nondet_uint();
+#endif
+}
+static void init_inputs(void) {
+  in_W = XV_W; in_A = XV_A; in_S = XV_S; in_g = nondet_uint(); XV_ASSUME(in_g < XV_W);
+}
+
+#ifdef XV_INT
+void xv_env(void) {
+  if (!env_on || lock_mine) return;                 /* R3 */
+  uint64_t a = g_sl->_seq, b = nondet_u64();
+  XV_ASSUME(b >= a && b <= MAXSEQ);                 /* R1 */
+  /* write targets of the odd values 2j+1 in [a, b] are the slots t mod slots for t in [lo, hi] */
+  uint64_t lo = (a >> 1) + 1, hi = (b + 1) >> 1;
+  if (hi >= lo) {
+    uint64_t span = hi - lo; unsigned lom = (unsigned)(lo % slots);
+    for (unsigned s = 0; s < XV_S; s++) {
+      unsigned d = (s + XV_S - lom) % XV_S;
+      if (span >= XV_S - 1 || d <= span) { g_sl->_data[s] = nondet_storage(); ver[s]++; env_writes++; }   /* R2 */
+    }
+  }
+  g_sl->_seq = b; shadow_seq = b;
+}
+#endif
+
+/* =================== SEQ: the copy loops =================== */
+void h_copy(void) {
+  struct seqlock sl; g_sl = &sl; havoc_shared(); reset_monitors(); init_inputs();
+  in_slot = nondet_uint(); XV_ASSUME(in_slot < XV_S);
+  unsigned gs = nondet_uint(), gb = nondet_uint(); XV_ASSUME(gs < XV_S && gb < sizeof(storage_t));     /* frame: an arbitrary byte of an arbitrary slot */
+  T src = nondet_T(); sequence_t seq0 = sl._seq; unsigned char old_frame = sl._data[gs].b[gb];
+  cur_slot = in_slot; lock_mine = 1;
+  sl_store_data(&sl, &src, &sl._data[in_slot]);
+  XV_OBL("sl.copy.all_bytes", sl._data[in_slot].b[in_g] == src.b[in_g]);
+  XV_OBL("sl.copy.all_bytes", g_wr_count == 1);
+  XV_OBL("sl.copy.all_bytes", sl._seq == seq0 && (gs == in_slot || sl._data[gs].b[gb] == old_frame));
+  XV_OBL("sl.copy.in_bounds", !acc_oob);
+  XV_OBL("sl.copy.aligned", !acc_misaligned);
+  XV_OBL("sl.store.sync", !wfence_missing && n_data_stores >= 1);
+  if (gs != in_slot) XV_CANARY("copy.frame_other_slot");
+  /* read it back */
+  unsigned char cur_g = sl._data[in_slot].b[in_g], cur_frame = sl._data[gs].b[gb];
+  T dest = nondet_T(); g_rd_count = 0;
+  sl_read_data(&sl, &dest, &sl._data[in_slot]);
+  XV_OBL("sl.copy.all_bytes", dest.b[in_g] == cur_g);
+  XV_OBL("sl.copy.all_bytes", g_rd_count == 1);
+  XV_OBL("sl.copy.all_bytes", sl._seq == seq0 && sl._data[gs].b[gb] == cur_frame && sl._data[in_slot].b[in_g] == cur_g);
+  XV_OBL("sl.copy.in_bounds", !acc_oob);
+  XV_OBL("sl.copy.aligned", !acc_misaligned);
+  XV_OBL("sl.load.sync", !pending_data_loads && n_data_loads >= 1);
+  XV_CANARY("copy.done");
+#if XV_W % 8
+  if (in_g >= (XV_W / 8) * 8) XV_CANARY("copy.tail_byte");       /* a byte beyond the last whole word */
+#endif
+}
+
+/* =================== SEQ: lock parity =================== */
+void h_lock(void) {
+  struct seqlock sl; g_sl = &sl; havoc_shared(); reset_monitors(); init_inputs();
+  XV_ASSUME(sl._seq <= MAXSEQ && !(sl._seq & 1));
+  unsigned gs = nondet_uint(); XV_ASSUME(gs < XV_S);
+  sequence_t v = sl._seq; unsigned char old = sl._data[gs].b[in_g];
+  sequence_t r = sl_acquire_lock(&sl);
+  XV_OBL("sl.lock.parity", r == v + 1 && sl._seq == v + 1 && lock_mine && n_cas_ok == 1 && n_seq_stores == 0);
+  XV_OBL("sl.store.sync", !cas_weak);
+  sl_release_lock(&sl, r);
+  XV_OBL("sl.lock.parity", sl._seq == v + 2 && !lock_mine && n_seq_stores == 1 && n_cas_ok == 1);
+  XV_OBL("sl.lock.parity", n_data_stores == 0 && sl._data[gs].b[in_g] == old);
+  XV_OBL("sl.writer.guarantee", !guar_bad);
+  XV_OBL("sl.store.sync", !rel_weak);
+  XV_CANARY("lock.done");
+}
+
+/* =================== SEQ: store; load =================== */
+void h_store_load(void) {
+  struct seqlock sl; g_sl = &sl; havoc_shared(); reset_monitors(); init_inputs();
+  XV_ASSUME(sl._seq <= MAXSEQ && !(sl._seq & 1));            /* quiescent */
+  unsigned gs = nondet_uint(); XV_ASSUME(gs < XV_S);
+  in_seq0 = sl._seq; sequence_t k = sl._seq >> 1; unsigned tgt = (unsigned)((k + 1) % XV_S);
+  T v = nondet_T(); unsigned char old = sl._data[gs].b[in_g];
+  sl_store(&sl, &v);
+  XV_OBL("sl.lock.parity", sl._seq == in_seq0 + 2 && !lock_mine && n_cas_ok == 1 && n_seq_stores == 1);
+  XV_OBL("sl.slot.writer", st_calls == 1 && st_slot == tgt && st_seq == in_seq0 + 1);
+  XV_OBL("sl.store_load.roundtrip", sl._data[tgt].b[in_g] == v.b[in_g]);
+  XV_OBL("sl.store_load.roundtrip", gs == tgt || sl._data[gs].b[in_g] == old);          /* frame: the other slots are untouched */
+  XV_OBL("sl.writer.guarantee", !guar_bad && !acc_oob);
+  XV_OBL("sl.store.sync", !wfence_missing && !rel_weak && !cas_weak);
+  unsigned n_st = n_data_stores; unsigned char frame2 = sl._data[gs].b[in_g];
+  T r = sl_load(&sl);
+  XV_OBL("sl.store_load.roundtrip", r.b[in_g] == v.b[in_g]);
+  XV_OBL("sl.store_load.roundtrip", sl._seq == in_seq0 + 2 && sl._data[gs].b[in_g] == frame2 && n_data_stores == n_st && n_seq_stores == 1 && n_cas == 1);
+  XV_OBL("sl.slot.reader", rd_calls == 1 && rd_slot == tgt);     /* the reader's slot after the write is the slot the writer filled */
+  XV_OBL("sl.load.sync", !seq_load_weak && !fence_missing && !pending_data_loads);
+  XV_CANARY("store_load.done");
+  if (gs != tgt) XV_CANARY("store_load.frame");
+}
+
+/* =================== SEQ: update =================== */
+void h_update(void) {
+  struct seqlock sl; g_sl = &sl; havoc_shared(); reset_monitors(); init_inputs();
+  XV_ASSUME(sl._seq <= MAXSEQ && !(sl._seq & 1));
+  unsigned gs = nondet_uint(); XV_ASSUME(gs < XV_S);
+  in_seq0 = sl._seq; sequence_t k = sl._seq >> 1; unsigned cur = (unsigned)(k % XV_S), tgt = (unsigned)((k + 1) % XV_S);
+  unsigned char old_cur = sl._data[cur].b[in_g], old = sl._data[gs].b[in_g]; int f = nondet_int();
+  sl_update(&sl, f);
+  XV_OBL("sl.update.applies", fn_calls == 1 && fn_id == f && fn_in_g == old_cur);      /* applied once, to the current value */
+  XV_OBL("sl.update.applies", fn_locked && fn_seq == in_seq0 + 1);                      /* ... while holding the lock */
+  XV_OBL("sl.update.applies", sl._data[tgt].b[in_g] == fn_out_g);                       /* its result is what gets published */
+  XV_OBL("sl.update.applies", gs == tgt || sl._data[gs].b[in_g] == old);
+  XV_OBL("sl.lock.parity", sl._seq == in_seq0 + 2 && !lock_mine && n_cas_ok == 1 && n_seq_stores == 1);
+  XV_OBL("sl.slot.writer", st_calls == 1 && st_slot == tgt && rd_calls == 1 && rd_slot == cur);
+  XV_OBL("sl.writer.guarantee", !guar_bad && !acc_oob);
+  XV_OBL("sl.store.sync", !wfence_missing && !rel_weak && !cas_weak);
+  T r = sl_load(&sl);
+  XV_OBL("sl.update.applies", r.b[in_g] == fn_out_g && sl._seq == in_seq0 + 2);
+  XV_CANARY("update.done");
+  if (gs != tgt && gs != cur) XV_CANARY("update.frame");
+}
+
+/* =================== SEQ: slot arithmetic, reader against a writer that is inside =================== */
+void h_slots(void) {
+  struct seqlock sl; g_sl = &sl; havoc_shared(); reset_monitors(); init_inputs();
+  XV_ASSUME(sl._seq <= MAXSEQ && !(sl._seq & 1));
+  in_seq0 = sl._seq; sequence_t k = sl._seq >> 1;
+  /* a reader at the quiescent sequence 2k returns the contents of slot k mod slots */
+  unsigned char cur_g = sl._data[k % XV_S].b[in_g];
+  T r0 = sl_load(&sl);
+  unsigned reader_even = rd_slot;
+  XV_OBL("sl.slot.reader", rd_calls == 1 && reader_even == (unsigned)(k % XV_S) && r0.b[in_g] == cur_g);
+  XV_OBL("sl.load.sync", !seq_load_weak && !fence_missing && !pending_data_loads);
+  XV_OBL("sl.load.readonly", n_data_stores == 0 && n_seq_stores == 0 && n_cas == 0 && sl._seq == in_seq0);
+#if XV_S > 1
+  /* a reader that finds the odd sequence 2k+1 (a writer is inside) still reads slot k mod slots */
+  sl._seq = in_seq0 + 1; shadow_seq = sl._seq;
+  T r1 = sl_load(&sl);
+  unsigned reader_odd = rd_slot;
+  XV_OBL("sl.slot.reader", rd_calls == 2 && reader_odd == reader_even && r1.b[in_g] == cur_g);
+  sl._seq = in_seq0; shadow_seq = sl._seq;
+#endif
+  /* the writer that turns 2k into 2k+1 writes slot (k+1) mod slots ... */
+  T v = nondet_T();
+  sl_store(&sl, &v);
+  XV_OBL("sl.slot.writer", st_calls == 1 && st_slot == (unsigned)((k + 1) % XV_S));
+#if XV_S > 1
+  /* ... which is never the slot a reader of 2k or 2k+1 reads */
+  XV_OBL("sl.slot.disjoint", st_slot != reader_even && st_slot != reader_odd);
+  XV_CANARY("slots.multi");
+#endif
+  XV_CANARY("slots.done");
+}
+
+/* =================== SOLO: load terminates (slots > 1) from any state, odd _seq included =================== */
+void h_load_solo(void) {
+  struct seqlock sl; g_sl = &sl; havoc_shared(); reset_monitors(); init_inputs();
+  XV_ASSUME(sl._seq <= MAXSEQ);
+  T r = sl_load(&sl);
+  XV_OBL("sl.load.readonly", n_data_stores == 0 && n_seq_stores == 0 && n_cas == 0);
+  if (sl._seq & 1) XV_CANARY("solo.odd"); else XV_CANARY("solo.even");
+}
+
+/* =================== INT: load against writers =================== */
+void h_load_int(void) {
+#ifdef XV_INT
+  struct seqlock sl; g_sl = &sl; havoc_shared(); reset_monitors(); init_inputs(); env_writes = 0;
+  XV_ASSUME(sl._seq <= MAXSEQ);
+  for (unsigned s = 0; s < XV_S; s++) XV_ASSUME(ver[s] <= MAXSEQ);
+  in_seq0 = sl._seq;                                     /* every store that completed before the call has sequence <= in_seq0 */
+  env_on = 1;
+  T r = sl_load_cut(&sl);
+  env_on = 0;
+  /* the bytes were read from the slot designated by an observation of _seq made during the call ... */
+  XV_OBL("sl.load.untorn", rd_slot == rd_obs_slot && rd_obs_slot == (unsigned)((rd_obs_v >> 1) % XV_S));
+  /* ... which (single slot) was even, i.e. no writer was inside ... */
+  XV_OBL("sl.load.untorn", XV_S > 1 || !(rd_obs_v & 1));
+  /* ... every byte was read while the slot still had the version it had at that observation, and equals the byte it held then */
+  XV_OBL("sl.load.untorn", g_rd_count == 1 && g_rd_ver == rd_obs_ver);
+  XV_OBL("sl.load.untorn", r.b[in_g] == rd_obs_snap);
+  /* not older than the last store completed before the call; and load writes nothing */
+  XV_OBL("sl.load.fresh", rd_obs_v >= in_seq0 && (rd_obs_v >> 1) >= (in_seq0 >> 1));
+  XV_OBL("sl.load.readonly", n_data_stores == 0 && n_seq_stores == 0 && n_cas == 0);
+  XV_OBL("sl.load.sync", !seq_load_weak && !fence_missing);
+  XV_CANARY("load_int.returned");
+  if (sl._seq != rd_obs_v) XV_CANARY("load_int.seq_moved");
+  if (env_writes) XV_CANARY("load_int.env_wrote");
+  if (in_seq0 & 1) XV_CANARY("load_int.odd_start");
+#endif
+}
+
+/* =================== INT: acquire_lock against other writers =================== */
+void h_acquire_int(void) {
+#ifdef XV_INT
+  struct seqlock sl; g_sl = &sl; havoc_shared(); reset_monitors(); init_inputs(); env_writes = 0;
+  XV_ASSUME(sl._seq <= MAXSEQ);
+  env_on = 1;
+  sequence_t r = sl_acquire_lock_cut(&sl);
+  env_on = 0;
+  XV_OBL("sl.lock.acquire", n_cas_ok == 1 && lock_mine && (r & 1) && sl._seq == r && shadow_seq == r);
+  XV_OBL("sl.writer.guarantee", !guar_bad && n_seq_stores == 0 && n_data_stores == 0);
+  XV_OBL("sl.store.sync", !cas_weak);
+  XV_CANARY("acquire_int.returned");
+  if (env_writes) XV_CANARY("acquire_int.env_wrote");
+#endif
+}
